@@ -478,7 +478,37 @@ def rule_R4(ctx):
             v["rule"] = "R4"
 
 
+def rule_skip_preface(ctx):
+    """R2: the one-shot entry point skips the connection preface the way the incremental extractor does: the frames are parsed from
+    the slice that starts after the preface (the offset it reports as consumed is the offset it really skipped)"""
+    P = ctx.program
+    b = P.method1("Http2Parser", "parse_frames_skip_preface")
+    S = T.Slicer(b, P)
+    calls = [(blk, t) for blk, t in b.calls() if callee_of(t).rsplit("::", 1)[-1] in ("parse_frames_with_offset", "parse_frames")]
+    if not calls:
+        ctx.cannot("R2", "skip_preface:slice", "no parse call in parse_frames_skip_preface", ctx.loc(b))
+        return
+    for blk, t in calls:
+        a = Q.call_args(b, S, blk, t)
+        d = T.strip(a[-1])
+        starts = []
+        for x in T.walk(d):
+            if x[0] == "call" and x[1].endswith("::index") and len(x[2]) == 2:
+                r = T.strip(x[2][1])
+                if r[0] == "agg" and (r[2] or "").endswith("ops::RangeFrom"):
+                    starts.append(r[4][0])
+            if x[0] == "call" and x[1].endswith("::strip_prefix"):
+                starts.append(("strip_prefix",))
+        skips = [s_ for s_ in starts if s_ == ("strip_prefix",) or any(y[0] == "const" and ((y[2] or "").endswith("HTTP2_CONNECTION_PREFACE") or
+                 y[1] == b"PRI * HTTP/2.0\r\n\r\nSM\r\n\r\n") for y in T.walk(s_)) or T.fold_int(s_) == 24 or
+                 (T.strip(s_)[0] == "phi" and any(T.fold_int(z) == 24 for z in T.strip(s_)[1]))]
+        ctx.check(bool(skips), "R2", "skip_preface:slice", "frames parsed from data[preface length..]",
+                  "parse_frames_skip_preface parses %s: the preface bytes are read as a frame header (`PRI` = a 5 MiB frame), no frame is found and the one-shot "
+                  "fingerprint of a capture that starts with the preface is None while the incremental extractor reports one" % T.pp(d)[:60], ctx.loc(b, blk))
+
+
 def run(ctx):
+    rule_skip_preface(ctx)
     rule_R1(ctx)
     rule_R2(ctx)
     rule_R3(ctx)
